@@ -348,3 +348,18 @@ package sql
 //@ mode nosafety
 //@ bounded 1500
 //@ ensures[C06:parts-listed-exactly-once-across-pages] result
+
+// C06. ListObjectVersions, continuation: the marker a truncated page hands out names the last entity the page
+// consumed - its key AND its version id, always taken from the same entity - so the next page resumes right behind it
+// (a grouped prefix is not repeated, no version is skipped).
+//@ func (*sqlMetadataStore).ListObjectVersions
+//@ mode effects
+//@ trust nonnil bucket.Repository.ExistsBucketByName
+//@ effect[C06:marker-names-the-entity-consumed-last] every loop_continues() if strings.HasPrefix(entity.Key.String(), prefix)
+//@     where lastReturnedKey != nil && *lastReturnedKey == entity.Key.String() && (lastReturnedVersionID == nil) == (entity.VersionID == nil) &&
+//@         (lastReturnedVersionID != nil ==> *lastReturnedVersionID == *entity.VersionID)
+//@ effect[C06:truncated-page-hands-out-that-marker] every returns() if err == nil
+//@     where result != nil && (result.IsTruncated ==> specSameOptString(result.NextKeyMarker, lastReturnedKey) && specSameOptString(result.NextVersionIDMarker, lastReturnedVersionID)) &&
+//@         (!result.IsTruncated ==> result.NextKeyMarker == nil && result.NextVersionIDMarker == nil)
+//@ effect[C06:versions-read-behind-the-markers] every sms.objectRepository.$M(_, _, metadatastore.BucketName($b), string($p), string($km), string($vm), __)
+//@     where $b == bucketName && $p == prefix && $km == keyMarker && $vm == versionIDMarker
